@@ -66,6 +66,63 @@ def repeat(sel: List[int]) -> bool:
     return judge(labels)
 
 
+REEXPORTERS = ["pkg", "pkg/a", "pkg/a/b", "pkg/z", "pkg/z/y"]  # alphabetical order != order by depth
+
+
+def reexporters(sel: List[int]) -> bool:
+    """A class and a function re-exported by any subset of five packages (ancestors and non-ancestors of the defining
+    module, shallower and deeper, by name or under an alias): generation leaves the model as it was and a second
+    generation yields the same files.
+
+    pre: len(sel) == SEL_LEN and fixed(sel)
+    post: _
+    """
+    from vlib.gapi import INT, mk_function, mk_init_module
+
+    try:
+        cur = Cur()
+        convert = rd(sel, cur, 2) == 1
+        home = ["pkg/a/b/_impl", "pkg/core"][rd(sel, cur, 2)]
+        subset = [r for r in REEXPORTERS if rd(sel, cur, 2) == 1]
+        alias = rd(sel, cur, 2) == 1  # the shallowest re-exporter uses an alias
+        if len(subset) < 2 or (alias and not subset):
+            raise OutOfRange
+    except OutOfRange:
+        return True
+    api = mk_api()
+    hq = home.replace("/", ".")
+    shallowest = min(subset, key=lambda r: (len(r.split("/")), r))
+    for r in subset:
+        al = alias and r == shallowest
+        mk_init_module(api, r, imports=[(f"{hq}.Thing", "ThingAlias" if al else None), (f"{hq}.make_thing", "make_alias" if al else None)])
+    m = mk_module(api, home)
+    mk_class(api, m, "Thing")
+    mk_function(api, m, "make_thing", results=[("result_1", INT)])
+    user = mk_module(api, "pkg/user")
+    from safeds_stubgen.api_analyzer._types import NamedType
+
+    mk_function(api, user, "use", params=[{"name": "t", "type_": NamedType("Thing", f"{hq}.Thing")}], results=[("result_1", INT)])
+    with untraced():
+        d0 = deepcopy(api.to_dict())
+    fs1, _, _ = generate(api, convert)
+    with untraced():
+        files1 = dict(fs1.files)
+        d1 = deepcopy(api.to_dict())
+    fs2, _, _ = generate(api, convert)
+    note("oracle")
+    labels = []
+    with untraced():
+        files2 = dict(fs2.files)
+        d2 = api.to_dict()
+        if d1 != d0:
+            labels += [f"model-mutated-by-generation:{k}" for k in _diff_keys(d0, d1)]
+        elif d2 != d0:
+            labels += [f"model-mutated-by-second-generation:{k}" for k in _diff_keys(d0, d2)]
+        if files1 != files2:
+            labels.append("second-generation-differs:fresh-generator:" + ("file-set" if set(files1) != set(files2) else "texts"))
+    return judge(labels)
+
+
 def rerun_into_populated_dir(sel: List[int]) -> bool:
     """Second CLI-style run (fresh generator, fresh API built the same way) into the directory the first run filled.
 
@@ -146,6 +203,10 @@ def inherited_twice(sel: List[int]) -> bool:
 def CANDIDATES(func: str):
     import itertools
 
+    if func == "reexporters":
+        for sel in itertools.product(range(2), range(2), *([range(2)] * 5), range(2)):
+            yield [list(sel) + [0] * (SEL_LEN - len(sel))]
+        return
     if func == "inherited_twice":
         for sel in itertools.product(range(14), range(2), range(2)):
             yield [list(sel) + [0] * 7]
